@@ -360,6 +360,16 @@ def c05_fills(tr, out):
             out.v("fok-filled-after-placement", {"side": f["side"]}, fragment=f, placement=p)
 
 
+def book_at_arrival_is_current(tr, out, tags=None):
+    """An order reaching the (simulated) exchange is matched against the book in force at that moment, not an earlier one."""
+    for p in tr.placements:
+        if p.get("market_pt_now") is None or p.get("book_pt") is None:
+            continue
+        out.rule("book-current")
+        if p["book_pt"] != p["market_pt_now"]:
+            out.v("order-matched-against-a-book-that-is-not-the-current-one", dict(tags or {}, filled=bool(p.get("frags")), mstatus=p["mstatus"]), order=p["o"], book_pt=p["book_pt"], market_pt_now=p["market_pt_now"], frags=p.get("frags"))
+
+
 def book_at_arrival_matches_file(tr, out, snaps_by_market):
     """The book an arriving order is matched against is the one the recorded data shows for that publish time (the reader's own
     accumulation of every line of the file, whatever the listener's filters delivered)."""
